@@ -34,7 +34,7 @@ WRITE_ENTRIES = [
 
 
 def do_write(srv, cache, *, side, entry, key=None, algo="sha256", n=0, tag=0, chunks=None, opts=None,
-             write_op="w_write_all", flush=False):
+             write_op="w_write_all", flush=False, flush_each=False):
     """Perform one complete write. Returns (final_reply, trace) where final_reply is the reply that
     carries the integrity (or the first failing reply) and trace the list of (request, reply)."""
     sync = side == "s"
@@ -102,6 +102,12 @@ def do_write(srv, cache, *, side, entry, key=None, algo="sha256", n=0, tag=0, ch
                     return rep, trace
         else:
             rep = call({"op": write_op, "h": h, "data": spec})
+            if "ok" not in rep:
+                _drop(srv, h, rep)
+                return rep, trace
+        if flush_each:
+            # a flush after every chunk (legal at any point of a stream)
+            rep = call({"op": "w_flush", "h": h})
             if "ok" not in rep:
                 _drop(srv, h, rep)
                 return rep, trace
